@@ -201,7 +201,7 @@ func tear(t *tape.Tape, line string) string {
 	return line[:1+t.Choose(len(line)-1)]
 }
 
-var garbage = []string{"", " ", "xyzzy", "go go go", "position", "position fen", "position fen 8/8 w", "setoption", "setoption name", "bestmove e2e4", "uci", "debug on", "register later", "ponderhit", "go depth", "go movetime x", "position startpos moves e2e5", "position startpos moves", "\t", "isready now", "stop stop"}
+var garbage = []string{"setoption name Hash value -5", "setoption name Depth value 4000000000", "setoption name Depth value -7", "setoption name Noise value -1", "setoption name Depth value -1", "setoption name Noise value abc", "setoption name Hash value x", "setoption name Noise", "setoption name Noise value 99999999999999999999", "", " ", "xyzzy", "go go go", "position", "position fen", "position fen 8/8 w", "setoption", "setoption name", "bestmove e2e4", "uci", "debug on", "register later", "ponderhit", "go depth", "go movetime x", "position startpos moves e2e5", "position startpos moves", "\t", "isready now", "stop stop"}
 
 // next returns the next line of the impolite GUI ("" = none).
 func (g *advGUI) next() string {
